@@ -32,7 +32,7 @@ def cases(tier, seed):
     T = tier == 'thorough'
     cs = []
     kinds = ['gauss', 'lowrank', 'superdiag', 'superdiag_flat', 'graded', 'lowrank', 'zero', 'superdiag_int']
-    for i in range(700 if not T else 12000):
+    for i in range(2500 if not T else 40000):
         d = rng.choice([1, 2, 2, 3, 3, 3, 4, 4, 5, 6])
         pool = (1, 2, 3, 4, 5, 7) if d <= 4 else (1, 2, 3, 4)
         N = [rng.choice(pool) for _ in range(d)]
@@ -54,7 +54,7 @@ def cases(tier, seed):
         for shape in ('none', 'tensor', 'operator'):
             cs.append({'gen': 'random', 'kind': 'gauss', 'N': [5], 'M': [3], 'dtype': 'f64', 'source': src, 'shape': shape, 'eps': 1e-10, 'rmax': 'none'})
     # adaptive stress: breakpoints
-    for i in range(60 if not T else 1200):
+    for i in range(200 if not T else 3000):
         d = rng.choice([2, 2, 3, 3, 4, 5])
         kind = ['superdiag_int', 'superdiag', 'lowrank', 'superdiag_flat', 'gauss', 'superdiag_int_rot'][i % 6]
         if kind.startswith('superdiag'):
